@@ -321,3 +321,41 @@ If `test` is `None` then uses the default test:
                 parser2.parse_args(values, namespace=args)
 
     return TmpAction
+
+
+def early_output_format(argv, default):
+    """Output format asked for by the options before the formula name
+
+    The comment marker that shields the error messages depends on
+    the output format, but the errors met while the command line is
+    being parsed come before the parser can tell which format was
+    requested.  This function reads just the leading options
+    (`-of/--output-format <format>`, `-l/--latex`) ahead of the
+    real parsing, so that those messages get the right marker too.
+    Anything it does not recognize leaves the `default` format.
+    """
+    formats = ('latex', 'dimacs', 'opb')
+    with_argument = ('-o', '--output', '-S', '--seed')
+    fmt = default
+    i = 1
+    while i < len(argv):
+        token = argv[i]
+        if token in ('-of', '--output-format'):
+            if i + 1 < len(argv) and argv[i + 1] in formats:
+                fmt = argv[i + 1]
+            i += 2
+        elif token.startswith('--output-format='):
+            value = token.split('=', 1)[1]
+            if value in formats:
+                fmt = value
+            i += 1
+        elif token in ('-l', '--latex'):
+            fmt = 'latex'
+            i += 1
+        elif token in with_argument:
+            i += 2
+        elif token.startswith('-') and token != '-':
+            i += 1
+        else:
+            break
+    return fmt
